@@ -124,7 +124,11 @@ def verify_tpm(
                 f'Unique "{unique_hex}" was not same as public key [x,y] "{pub_key_xy_hex}" (TPM)'
             )
 
-        pub_area_crv = TPM_ECC_CURVE_COSE_CRV_MAP[pub_area.parameters.curve_id]
+        pub_area_crv = TPM_ECC_CURVE_COSE_CRV_MAP.get(pub_area.parameters.curve_id)
+        if pub_area_crv is None:
+            raise InvalidRegistrationResponse(
+                f'Unsupported PubArea curve ID "{pub_area.parameters.curve_id}" (TPM)'
+            )
         if pub_area_crv != decoded_public_key.crv:
             raise InvalidRegistrationResponse(
                 f'PubArea curve ID "{pub_area_crv}" was not same as public key crv "{decoded_public_key.crv}" (TPM)'
